@@ -9,6 +9,13 @@ use sim_core::driver::{RunOut, Tier, Violation};
 fn exec<S: Crystal>(initial: S, sc: &Scenario, which: &str) -> Result<RunOut, String> {
     let (ev, _) = run_chain(initial, &sc.chain, Box::new(NoMonitor), true)?;
     let mut out = base_out(sc, &ev)?;
+    if which == "C06" {
+        if let Some(w) = &ev.score_wrote {
+            // the state between two steps is the proposal or the state before it: a score()
+            // evaluation that rewrites a parameter puts something else there
+            out.violate(Violation::new("parameter-changed-during-score", 0, format!("evaluating the state modified it: {}", w)));
+        }
+    }
     let mut acc = 0u64;
     let mut rej = 0u64;
     for b in &ev.boundaries {
